@@ -934,9 +934,30 @@ func checkPanics(w *World, r *Report, rule string) {
 		case name == "(decor.WC).Sync":
 			return "uninitialised width config (documented)", true
 		}
-		// fmt.Formatter write-error branches: panic(err) where err comes from a Write on fmt.State
+		// fmt.Formatter write-error branches: panic(err) where err is the error result of a write to the fmt.State
 		if fn.Signature.Recv() != nil && fn.Name() == "Format" && fn.Signature.Params().Len() == 2 {
 			return "fmt.Formatter write error", true
+		}
+		if fn.Pkg == w.Decor {
+			v := p.X
+			if ci, ok := v.(*ssa.ChangeInterface); ok {
+				v = ci.X
+			}
+			if mi, ok := v.(*ssa.MakeInterface); ok {
+				v = mi.X
+			}
+			if ex, ok := v.(*ssa.Extract); ok {
+				if c, ok := ex.Tuple.(*ssa.Call); ok {
+					isWrite := (c.Call.IsInvoke() && c.Call.Method.Name() == "Write") || (c.Call.StaticCallee() != nil && c.Call.StaticCallee().String() == "io.WriteString")
+					if isWrite {
+						for _, prm := range fn.Params {
+							if typeName(prm.Type()) == "fmt.State" {
+								return "fmt.Formatter write error (helper)", true
+							}
+						}
+					}
+				}
+			}
 		}
 		// compiler-generated "blocking select matched no case"
 		if mi, ok := p.X.(*ssa.MakeInterface); ok {
@@ -992,4 +1013,3 @@ func checkModuloIndex(w *World, r *Report, rule string) {
 	}
 	r.Floor(rule, 3, "bar tip frames, spinner filler frames, spinner decorator frames")
 }
-
